@@ -925,6 +925,9 @@ def check_C17(ctx):
     n = rules_zc.rule_zc_guard(u, ts, rep)
     rep.floor("raw emission sites", n, 28)
     rules_zc.rule_szc(u, rep)
+    rep.rule("ZC-PARAM", "built-in containers written as one raw image of Self (arrays, tuples): IS_ZERO_COPY depends on the IS_ZERO_COPY of every type parameter contained in the image")
+    kc = rules_zc.rule_image_params(u, ts, rep)
+    rep.floor("built-in raw-image containers", kc, 10)
     k = rules_zc.rule_derived_const(u, rep)
     rep.floor("derived IS_ZERO_COPY constants", k, 30)
     rules_zc.rule_zerocopy_supers(u, rep)
